@@ -122,6 +122,28 @@ Proof. unfold oneshot_enter. destruct (oshot x); auto. Qed.
 Lemma oneshot_exit_same x x1 : oneshot_exit x = Some x1 -> opid x1 = opid x /\ oreused x1 = oreused x.
 Proof. unfold oneshot_exit. destruct (oshot x) as [|[|n]]; intros E; inversion E; auto. Qed.
 
+Lemma do_wait_same K x vis :
+  opid (fst (do_wait K x vis)) = opid x /\ oreused (fst (do_wait K x vis)) = oreused x.
+Proof.
+  unfold do_wait. destruct (oexit x); auto. destruct (opid x <=? 0); auto.
+  destruct (vis && kexists K (opid x)); auto.
+Qed.
+
+Lemma do_wait_procs_logged K x vis :
+  logged x (fst (fst (do_wait_procs K x vis))) (snd (do_wait_procs K x vis)).
+Proof.
+  unfold do_wait_procs.
+  assert (H0 : opid (fst (do_hash x)) = opid x /\ oreused (fst (do_hash x)) = oreused x).
+  { unfold do_hash. destruct (ohash x); auto. }
+  destruct (do_hash x) as [x0 h0]. cbn [fst] in H0. destruct H0 as [A0 B0].
+  pose proof (do_wait_same K x0 vis) as [A1 B1]. destruct (do_wait K x0 vis) as [x1 r1]. cbn [fst] in *.
+  assert (L1 : logged x x1 []) by (split; [congruence|intros R; left; congruence]).
+  destruct r1 as [u|e|]; cbn [fst snd]; try exact L1.
+  - pose proof (is_running_logged K x1) as [P Q]. destruct (is_running K x1) as [[x2 r2] add]. cbn [fst snd] in *.
+    split; [congruence|]. intros R. destruct (Q R) as [R1|R1]; [left; congruence|right; congruence].
+  - destruct e; exact L1.
+Qed.
+
 (* ---------------------------------------------------------------- updates of the module state *)
 Lemma pmap_ok_upd m o x x1 add :
   pmap_ok m -> nth_error (objs m) o = Some x -> logged x x1 add ->
@@ -227,7 +249,7 @@ Qed.
 (* ---------------------------------------------------------------- every call keeps the invariant *)
 Lemma mcall_pmap_ok K m c : (forall g, c <> IterNext g) -> pmap_ok m -> pmap_ok (fst (fst (mcall K m c))).
 Proof.
-  intros NN P. destruct c as [pid|pid|o|o s|o|o|o|o|o|a b|a b|o s|o|o| | |o| |g]; cbn [mcall].
+  intros NN P. destruct c as [pid|pid|o|o s|o|o|o|o|o|a b|a b|o s|o|o| | |o vis| |g|o vis]; cbn [mcall].
   - destruct (new_obj K pid); cbn [fst]; auto. apply pmap_ok_app; auto.
   - destruct (new_popen K pid); cbn [fst]; auto. apply pmap_ok_app; auto.
   - destruct (nth_error (objs m) o) as [x|] eqn:Ex; cbn [fst]; auto.
@@ -279,10 +301,14 @@ Proof.
   - cbn [do_boot_time fst]. intros p i Hin. apply P; auto.
   - pose proof (proc_iter_stale_free K m P) as [_ P']. destruct (proc_iter K m) as [m1 r]. exact P'.
   - destruct (nth_error (objs m) o) as [x|] eqn:Ex; cbn [fst]; auto.
-    unfold do_wait. destruct (oexit x); [|destruct (kexists K (opid x))]; cbn [fst];
-      eapply pmap_ok_upd_same; eauto.
+    pose proof (do_wait_same K x vis) as [E1 E2]. destruct (do_wait K x vis) as [x1 r1]. cbn [fst] in *.
+    eapply pmap_ok_upd_same; eauto.
   - cbn [fst]. intros p i Hin. apply P; auto.
   - exfalso. eapply NN; reflexivity.
+  - destruct (nth_error (objs m) o) as [x|] eqn:Ex; cbn [fst]; auto.
+    pose proof (do_wait_procs_logged K x vis) as L.
+    destruct (do_wait_procs K x vis) as [[x1 r] add]. cbn [fst snd] in *.
+    eapply pmap_ok_upd; eauto.
 Qed.
 
 Lemma cstep_pmap_ok w c : (forall g, c <> IterNext g) -> pmap_ok (ms w) -> pmap_ok (ms (fst (fst (cstep w c)))).
